@@ -356,13 +356,22 @@ func C10Load(seed int64, rounds int) {
 	for _, order := range [][]int{{0, 1, 2}, {2, 0, 1}, {1, 2, 0}} {
 		n0 := 0
 		fmt.Sscanf(strings.TrimPrefix(profileGenvar("probe"), "gen_probe_"), "%d", &n0)
-		codes := startedThenSerial(events.ProfileParsingDone, 5*time.Second, []int{0, 1, 2}, order, []func(ch *chan events.Event) (string, error){
+		// the fourth "call" is started when the three generations are parked and only reads the counter: the parking point is
+		// before any code of Rego generation (Rendezvous: C10_parked_before_generation), so the counter has not moved
+		codes := startedThenSerial(events.ProfileParsingDone, 5*time.Second, []int{0, 1, 2, 3}, append(append([]int{}, order...), 3), []func(ch *chan events.Event) (string, error){
 			func(ch *chan events.Event) (string, error) { return genCode(c10Multi(3), ch) },
 			func(ch *chan events.Event) (string, error) { return genCode(c10Multi(5), ch) },
 			func(ch *chan events.Event) (string, error) { return genCode(coldProfile(6, "steered"), ch) },
+			func(ch *chan events.Event) (string, error) { close(*ch); return profileGenvar("probe"), nil },
 		})
+		whileParked := 0
+		fmt.Sscanf(strings.TrimPrefix(codes[3], "gen_probe_"), "%d", &whileParked)
+		if whileParked != n0+1 && len(mism) < 8 {
+			mism = append(mism, mismatch{c10job{Kind: fmt.Sprintf("generate: three calls parked inside the send of RegoGenerationStart (their listeners stop receiving after ProfileParsingDone) - the name counter read at that moment is %d, it was %d before they started: code of Rego generation has run before the event was delivered", whileParked, n0), Profile: -4, Data: 2}, fmt.Sprint(n0 + 1), fmt.Sprint(whileParked)})
+		}
+		n0 = whileParked
 		nums := [][]int{}
-		for _, code := range codes {
+		for _, code := range codes[:3] {
 			seen := map[int]bool{}
 			l := []int{}
 			for _, m := range reGen.FindAllStringSubmatch(code, -1) {
